@@ -184,7 +184,7 @@ Section Solve.
         | Some h => if abs O h <=? abs O (xend - x0) then Some (abs O h) else None
         | None => None
         end in
-      let C := mkHC (o_t_eval opt) (o_dense opt) first_output_step x0 (pr_events P) (pr_nevents P)
+      let C := mkHC (o_t_eval opt) (o_dense opt) first_output_step x0 (handler_tol O (xend - x0)) (pr_events P) (pr_nevents P)
                     (pr_evcfg P) (interp_fn (o_method opt)) in
       match run_method P x0 xend y0 opt (handler_cb C) (hs_init O C) fuel with
       | None => None
@@ -219,6 +219,9 @@ Section Solve.
     | (_, x1, _) :: _ => let '(_, xl, hl) := last segs (nil, zero O, zero O) in Some (x1, xl + hl)
     end.
 
+  (* slack of the range check in Solution::sol / sol_many (the same 1e-12 as the segment lookup) *)
+  Definition RANGE_TOL : F := L L1em12.
+
   Inductive sol_result := SolOk (y : vec) | SolNotEnabled | SolOutOfRange.
 
   Definition sol_eval (m : method) (n : nat) (S : solution) (t : F) : sol_result :=
@@ -229,7 +232,7 @@ Section Solve.
         | None => SolNotEnabled
         | Some (st, en) =>
             let lo := fmin O st en in let hi := fmax O st en in
-            if (t <? lo) || (t >? hi) then SolOutOfRange
+            if (t <? lo - RANGE_TOL) || (t >? hi + RANGE_TOL) then SolOutOfRange
             else match (match find (seg_contains t) segs with Some g => Some g | None => find (seg_in t) segs end) with
                  | Some (cont, xold, h) => SolOk (interp_fn m cont xold h t n)
                  | None => SolOutOfRange
@@ -249,7 +252,7 @@ Section Solve.
         | None => SolManyNotEnabled
         | Some (st, en) =>
             let lo := fmin O st en in let hi := fmax O st en in
-            match find (fun t => (t <? lo) || (t >? hi)) ts with
+            match find (fun t => (t <? lo - RANGE_TOL) || (t >? hi + RANGE_TOL)) ts with
             | Some t => SolManyOutOfRange t
             | None => SolManyOk (map (fun t => match sol_eval m n S t with SolOk y => y | _ => nil end) ts)
             end
